@@ -419,6 +419,10 @@ pub fn run_replay(path: &str) -> i32 {
             for l in r.trace.clone().unwrap_or_default() {
                 println!("{}", l);
             }
+            println!(
+                "choice points: {}",
+                r.points.iter().map(|p| format!("{}:{}/{}", crate::chooser::kind_name(p.kind), p.chosen, p.arity)).collect::<Vec<_>>().join(" ")
+            );
             let hit = r.violations.iter().find(|x| x.sig == sig);
             match hit {
                 Some(x) => {
